@@ -1,6 +1,10 @@
 import GixModel.Basic.Hex
+import GixModel.Model.C06Core
+import GixModel.Model.C06b
+import GixModel.Model.C06m
 import GixModel.Model.C02
 import GixModel.Model.C05
+import GixModel.Model.C14
 import GixModel.Model.C15
 import GixModel.Model.C19
 import GixModel.Model.C21
@@ -9,6 +13,7 @@ import GixModel.Model.C26
 import GixModel.Model.C27
 import GixModel.Model.C29
 import GixModel.Model.C35
+import GixModel.Model.C53
 import GixModel.Model.C57
 /-
 C06 — untrusted bytes never crash a parser.
@@ -35,36 +40,6 @@ This file holds
 -/
 namespace GixModel.C06
 open GixModel
-
-inductive Res (α : Type) where
-  | ok (a : α)
-  | err
-  | panic
-  | hang
-  deriving Repr, DecidableEq
-
-/-! ### slicing primitives (each `none` is a Rust panic) -/
-
-/-- `&a[i..]` -/
-def sliceFrom (a : Bytes) (i : Nat) : Option Bytes :=
-  if i ≤ a.length then some (a.drop i) else none
-
-/-- `&a[..j]` -/
-def sliceTo (a : Bytes) (j : Nat) : Option Bytes :=
-  if j ≤ a.length then some (a.take j) else none
-
-/-- `&a[i..j]` -/
-def slice (a : Bytes) (i j : Nat) : Option Bytes :=
-  if i ≤ j ∧ j ≤ a.length then some ((a.take j).drop i) else none
-
-/-- `a.split_at(i)` -/
-def splitAt (a : Bytes) (i : Nat) : Option (Bytes × Bytes) :=
-  if i ≤ a.length then some (a.take i, a.drop i) else none
-
-/-- `bstr::ByteSlice::find_byte` -/
-def findByte (c : UInt8) : Bytes → Option Nat
-  | [] => none
-  | b :: bs => if b = c then some 0 else (findByte c bs).map (· + 1)
 
 /-! ### `gix_utils::btoi` for `u64` -/
 
@@ -412,10 +387,10 @@ def obsOpt {α : Type} : Option α → String
 
 /-- entry points whose model is the trivial one: "returns a value or an error" -/
 def trivialModel : List String :=
-  ["signature", "loose-ref", "config-file", "config-color", "config-path",
-   "attributes", "ignore", "mailmap", "commit-graph", "midx", "pkt-all", "pkt-sideband",
-   "handshake", "ls-refs", "fetch-v1", "fetch-v2", "fetch-line", "capabilities", "url",
-   "url-expand", "refspec-fetch", "refspec-push", "revspec", "pathspec", "date"]
+  ["config-file", "config-color", "config-path",
+   "attributes", "ignore", "pkt-sideband",
+   "handshake", "ls-refs", "fetch-v1", "fetch-v2", "url",
+   "refspec-fetch", "refspec-push", "revspec", "pathspec", "date"]
 
 /-- entry points with a model (of another property) that has explicit panic outcomes and a
 theorem that they are unreachable, but whose inputs/outputs are not compared line by line here -/
@@ -445,17 +420,16 @@ def pktRead (d : Bytes) : String :=
   else if xs.any (fun z => match z.2 with | .dec _ => true | _ => false) then "err"
   else "ok"
 
-/-- `State::from_bytes` with thread limits 1 and 3 (C24's model): a value if either decodes.
-C24's model still has ONE panic branch: an IEOT block offset beyond the end of the file
-(`&data[offset..]` inside an entry thread, `decodeGroup`). C06's malformed stream reached it on the
-real code; it was repaired in /repo (error `Entry` instead of the slice panic), and since C24's
-model is not C06's to edit, its `panic` is read here as the error the repaired code returns. A
-panic of the REAL code is a failing input of the harness oracle regardless of what this says. -/
+/-- `State::from_bytes` with thread limits 1 and 3 (C24's model, which follows the repaired
+decoder since 3c35ca0): a value if either decodes -/
 def indexObs (d : Bytes) : String :=
   let o1 := C24.fromBytes Sha1C24.sha1 1 d
   let o3 := C24.fromBytes Sha1C24.sha1 3 d
+  let isPanic : C24.Outcome → Bool := fun o => match o with | .panic => true | _ => false
   let isOk : C24.Outcome → Bool := fun o => match o with | .ok _ _ _ _ _ => true | _ => false
-  if isOk o1 || isOk o3 then "ok" else "err"
+  if isPanic o1 || isPanic o3 then "panic"
+  else if isOk o1 || isOk o3 then "ok"
+  else "err"
 
 def handle? : List String → Option String
   | [ep, x] => do
@@ -463,6 +437,21 @@ def handle? : List String → Option String
     if trivialModel.contains ep || weakModel.contains ep then some "nopanic"
     else match ep with
     | "loose-header" => some (obs (looseHeader bs))
+    | "midx" => some (match midxOpen (fun p q => C19.cmpBytes p q == .lt) bs with
+        | none => "panic" | some false => "err" | some true => "ok")
+    | "mailmap" => some (
+        if (C53.snapshot (C53.fileEntries bs)).isNone then "panic"
+        else if (C53.parseFile bs).any (fun r => match r with | .err => true | _ => false) then "err"
+        else "ok")
+    | "commit-graph" => some (match C14.File.new bs with
+        | none => "panic" | some (.error _) => "err" | some (.ok _) => "ok")
+    | "signature" => some (obs (signatureDecode bs))
+    | "capabilities" => some (obs (capabilitiesRun bs))
+    | "fetch-line" => some (obs (fetchLineRun bs))
+    | "loose-ref" => some (obs (looseRef bs))
+    | "url-expand" => some (obs (expandPathParse bs))
+    | "pkt-all" => some (match C29.allAtOnce C29.consts bs with
+        | .ok _ => "ok" | .err _ => "err" | .panic => "panic")
     | "loose-object" => some (obs (fromLoose bs))
     | "index" => some (indexObs bs)
     | "tree" => some (obs (treeDecode bs))
